@@ -82,7 +82,17 @@ class Lock:
         self.f.close()
 
 
+_HARNESS = []
+
+
 def ensure_harness():
+    """Memoised per process: the tree is hashed once, at the first call."""
+    if not _HARNESS:
+        _HARNESS.append(_ensure_harness())
+    return _HARNESS[0]
+
+
+def _ensure_harness():
     """Builds the conformance harness from /repo's current working tree with the verif hooks on.
     Returns (binary path, key). The binary is cached under a key derived from the tree contents."""
     key = sha(repo_tree_hash(), dir_hash(HARNESS, (".go", ".mod")))[:20]
@@ -182,7 +192,7 @@ def simulate(workdir, module, cfg, num, depth, seed, overrides=None, timeout=600
     return behs
 
 
-def run_harness(binp, workdir, family, chains, links, behaviours, shards=None, extra_env=None, timeout=1500):
+def run_harness(binp, workdir, family, chains, links, behaviours, shards=None, extra_env=None, timeout=1500, params=None):
     """Executes behaviours on the real code, sharded over processes. Returns path of the concatenated trace."""
     shards = shards or min(NCPU, max(1, len(behaviours) // 2))
     procs = []
@@ -194,7 +204,7 @@ def run_harness(binp, workdir, family, chains, links, behaviours, shards=None, e
             continue
         inp = os.path.join(workdir, "in-%d.json" % s)
         outp = os.path.join(workdir, "trace-%d.ndjson" % s)
-        json.dump(dict(family=family, chains=chains, links=links, behaviours=chunk, first=first), open(inp, "w"))
+        json.dump(dict(family=family, chains=chains, links=links, behaviours=chunk, first=first, params=params or {}), open(inp, "w"))
         first += len(chunk)
         env = dict(os.environ, VERIF_IN=inp, VERIF_OUT=outp)
         env.update(extra_env or {})
